@@ -599,7 +599,10 @@ impl Check for SmartAccount {
             }
             // every stored definition, by id and by type (ids in insertion order), ids never reused
             for r in &m.rules {
-                let got = ac.get_context_rule(&r.id);
+                let got = match ac.try_get_context_rule(&r.id) {
+                    Ok(Ok(g)) => g,
+                    other => return Err(violation("rules.getters_eq_model", "get_context_rule", i, format!("rule {} does not answer ({:?}) after {s:?}", r.id, other.err()))),
+                };
                 let sg: std::vec::Vec<Signer> = got.signers.iter().collect();
                 let want_sg: std::vec::Vec<Signer> = r.signers.iter().map(|x| signer(*x)).collect();
                 let pl: BTreeSet<Address> = got.policies.iter().collect();
@@ -609,7 +612,10 @@ impl Check for SmartAccount {
                 }
             }
             for t in [CType::Default, CType::Call(0), CType::Call(1), CType::Call(2), CType::Call(255), CType::Create(0), CType::Create(1)] {
-                let ids: std::vec::Vec<u32> = ac.get_context_rules(&ctx_type(t)).iter().map(|r| r.id).collect();
+                let ids: std::vec::Vec<u32> = match ac.try_get_context_rules(&ctx_type(t)) {
+                    Ok(Ok(v)) => v.iter().map(|r| r.id).collect(),
+                    other => return Err(violation("rules.getters_eq_model", "get_context_rules", i, format!("type {t:?}: the per-type list does not answer ({:?}) after {s:?}", other.err()))),
+                };
                 let want: std::vec::Vec<u32> = m.rules.iter().filter(|r| r.ctype == t).map(|r| r.id).collect();
                 if ids != want {
                     return Err(violation("rules.getters_eq_model", "get_context_rules", i, format!("type {t:?}: ids {ids:?}, model {want:?} after {s:?}")));
